@@ -502,7 +502,14 @@ class DataOps:
             r = random.Random(o['a'][0])
             r.shuffle(group)
         try:
-            res = merge_datasets([s.obj for s in group])
+            if o['a'][4] % 5 == 0:
+                import warnings
+                from rsatoolbox.data.dataset import merge_subsets
+                with warnings.catch_warnings():
+                    warnings.simplefilter('ignore')
+                    res = merge_subsets([s.obj for s in group])          # the deprecated spelling
+            else:
+                res = merge_datasets([s.obj for s in group])
         except Exception as e:
             return self._raise('merge_datasets', e)
         sem = deepcopy(group[0].sem)
@@ -592,6 +599,8 @@ class DataOps:
         if o['flag2'] and len(groups) > 1:
             groups = groups[:-1]   # bins need not cover all time points
         bins = [np.array([tv[i] for i in g]) for g in groups]
+        if len({len(g) for g in groups}) == 1 and o['a'][2] % 2:
+            bins = np.array(bins)          # equal-sized bins as one 2-D array
         extra = [k for k in src.obj.time_descriptors if k != 'time']
         try:
             res = src.obj.bin_time('time', bins)
@@ -640,8 +649,20 @@ class DataOps:
         src = self.pick(o, kinds=('tdataset',), sem_only=True)
         if src is None or src.sem.get('bins') is not None:
             return False
+        by = 'time'
+        uniq = [k for k, v in src.obj.time_descriptors.items() if k != 'time' and len(set(normlist(v))) == len(normlist(v))]
+        if uniq and o['flag']:
+            by = sorted(uniq)[o['a'][0] % len(uniq)]      # any descriptor that names every time point can indicate the time dimension
         try:
-            res = src.obj.time_as_observations('time')
+            if o['a'][1] % 4 == 0:
+                import warnings
+                with warnings.catch_warnings():
+                    warnings.simplefilter('ignore')
+                    res = src.obj.convert_to_dataset(by)             # the deprecated spelling
+            elif by == 'time' and o['flag2']:
+                res = src.obj.time_as_observations()
+            else:
+                res = src.obj.time_as_observations(by)
         except Exception as e:
             shape = 'x'.join(str(min(s, 2)) for s in src.obj.measurements.shape)
             return self._raise(f'time_as_observations[{shape}]', e)
